@@ -15,7 +15,7 @@ HISTORY_RULE = ("rapid draws whole histories (1-25 steps quick, 1-60 thorough) o
                 "naming the action the application registers no controller for), admin "
                 "messages and environment steps (direct deposits, re-escrow, FTF pause/blacklist, CCTP burn limit, CCTP burn/message pauses, Hyperlane "
                 "router unenrol/enrol, the next block (height/time), the bank's per-denomination send switch, an in-place upgrade running the module's "
-                "registered migrations), packets carrying a non-native coin or a valid protocol id without controller, recipients incl. 32-byte and 2-byte addresses, denominations incl. one of the maximum length 128 and one using "
+                "registered migrations, another execution mode of the context, coins of a case-fold look-alike denomination minted onto the account), packets carrying a non-native coin or a valid protocol id without controller, recipients incl. 32-byte and 2-byte addresses, denominations incl. one of the maximum length 128 and one using "
                 "every allowed character class; Hyperlane routes may name the environment's SYNTHETIC token (its own denomination is never transferred); "
                 "executed on a "
                 "branch of the real SimApp; the oracle runs after every packet step. ")
@@ -333,6 +333,8 @@ PROPERTIES["C07"] = {
             "stack vs a reference stack built by the harness WITHOUT the orbiter middleware (blockibc over the ICS-20 module): ack bytes, the "
             "full event list and the digest of EVERY store must be equal, and the orbiter store and the orbiter/dust-collector balances "
             "untouched. Same differential for OnAcknowledgementPacket (success and error acks) and OnTimeoutPacket (refund paths). "
+            "TestC07OtherApplications: the real middleware over a stub wrapped application that acknowledges asynchronously (nil acknowledgement), answers "
+            "with its own acknowledgement type, or panics, compared with that application alone (acknowledgement, number of calls, state, events, panic). "
             "SendPacket/WriteAcknowledgement/GetAppVersion must reach a recording ICS-4 fake with identical arguments and results. "
             "A third of the packets write the five members as text with JSON spelling variants on which decoders disagree (repeated member with "
             "null/another value before or after, unknown member, member-name case, trailing/leading bytes, escapes, non-string values); whether "
@@ -342,6 +344,7 @@ PROPERTIES["C07"] = {
     "tests": [
         {"test": "TestC07Differential", "quick": 5000, "thorough": 2400000},
         {"test": "TestC07SendPath", "quick": 1000, "thorough": 200000},
+        {"test": "TestC07OtherApplications", "quick": 600, "thorough": 240000},
     ],
 }
 
@@ -360,7 +363,7 @@ PROPERTIES["C10"] = {
             "that account succeeds with valid content, every other signer (the default simapp authority, the orbiter/gov/upgrade module accounts, "
             "the raw configuration string, users, empty) is refused with all stores unchanged. "
             "The valid bodies include the largest batches the messages take (100 and 99 identifiers; the prepared state has 100 CCTP domains paused). "
-            "TestC10Replacement: ReplaceDepositForBurn with REAL valid content (an orbiter CCTP deposit attested with the harness attester key), "
+            "Every case runs under a drawn execution mode of the context (check, re-check, simulate, proposal handling, finalize). " "TestC10Replacement: ReplaceDepositForBurn with REAL valid content (an orbiter CCTP deposit attested with the harness attester key), "
             "with a drawn set of the module's own pauses in force: the authority succeeds and the request reaches CCTP with its fields, any other signer fails with all stores unchanged. "
             "Non-trivial = a case with a valid body; distinct by (configuration, RPC, signer, body).",
     "assumptions": COMMON_ASSUMPTIONS + ["the positive half (authority + valid body succeeds) covers the known messages; a message added later is covered for the signer check only",
